@@ -13,3 +13,5 @@ BINS += e3_hist
 e3_hist_OBJS := e3_hist common/domreg $(DOM_OBJS)
 BINS += c12_exact
 c12_exact_OBJS := c12_exact common/domreg $(DOM_OBJS)
+BINS += c06_fixpoint
+c06_fixpoint_OBJS := c06_fixpoint
